@@ -53,7 +53,7 @@ def _groups(rng):
 
 
 GEN = lambda rec, extra: (lambda rng, n: ({"self": dict({"__rec__": rec, "read_groups": _groups(rng)}, **extra(rng)),
-                                           "alignment": _aln(rng), "filename": rng.choice([None, "a.bam", "b.bam", ""])}
+                                           "alignment": _aln(rng), "filename": rng.choice([None, "a.bam", "b.bam", "", "rep1/reads.bam", "rep2/reads.bam"])}
                                           for _ in range(n)))
 
 COMMON = dict(returns="str", modifies=["self.read_groups"], native_args=_conv)
@@ -99,7 +99,8 @@ contract(R + "FileNameGrouper.get_group_id",
                   "filename is None or filename not in self.readable_names_dict or result == self.readable_names_dict[filename]",
                   "not (filename is None or len(filename) == 0) or result == 'NA' or (filename is not None and filename in self.readable_names_dict)",
                   ] + FRAME,
-         gen=GEN("FileNameGrouper", lambda r: {"readable_names_dict": r.choice([{}, {"a.bam": "a"}, {"a.bam": "a", "b.bam": "b"}])}),
+         gen=GEN("FileNameGrouper", lambda r: {"readable_names_dict": r.choice([{}, {"a.bam": "a"}, {"a.bam": "a", "b.bam": "b"},
+                                                                          {"rep1/reads.bam": "ctrl", "rep2/reads.bam": "treat"}])}),
          **COMMON)
 
 
